@@ -49,6 +49,12 @@ static inline double avm_u2d(uint64_t u) { union { uint64_t u; double f; } c; c.
 static inline uint32_t avm_f2u(float f)  { union { uint32_t u; float f; } c; c.f = f; return c.u; }
 static inline uint64_t avm_d2u(double f) { union { uint64_t u; double f; } c; c.f = f; return c.u; }
 
+typedef long double avm_max_align_t;     /* alignof == 16 on x86-64, like std::max_align_t */
+/* placement new of a scalar object: the storage must be suitably aligned for T ([basic.align]; UBSan: misaligned address) */
+extern size_t avm_base_mod;
+void* avm_blk_base;   /* ghost: base address of the block handed to deallocate (what the allocator must free) */
+#define AVM_PLACEMENT_NEW(T, p, v) (__CPROVER_assert((avm_base_mod + (size_t)__CPROVER_POINTER_OFFSET(p)) % _Alignof(T) == 0, "placement new: storage not aligned for " #T), *(T*)(p) = (v), (T*)(p))
+
 /* Integer division.  Default: the C operator (CBMC's division-by-zero / overflow checks apply).  With AVM_DIV_UF the
  * divide instruction is an uninterpreted, functionally consistent operation with explicit definedness checks: used
  * where a function merely routes operands to the hardware divider (a 32/64-bit divider circuit is beyond SAT even
